@@ -18,7 +18,7 @@ LEVEL_TEXT = ('Machine-checked for all source/destination formats and modes: han
               'random pairs up to 52 bits, three shapes, both source-creation modes and chains.')
 LEVEL_NOTE = 'Trusted: Lean kernel + standard axioms; that the routes share one numeric path is established by correspondence only; source-unchanged and shape are observed on the implementation.'
 
-ROUTES = ('resize', 'resize_dtype', 'like_kw', 'like_m', 'ctor', 'ctor_dtype', 'call', 'setval', 'equal', 'setitem')
+ROUTES = ('resize', 'resize_dtype', 'resize_if', 'resize_wi', 'like_kw', 'like_m', 'ctor', 'ctor_dtype', 'call', 'setval', 'equal', 'setitem')
 
 
 def dtype_str(s, n, f):
@@ -63,6 +63,15 @@ def convert(route, src, sd, nd, fd, r, o):
     if route == 'resize':
         y = copy.deepcopy(src); y.config.rounding = r; y.config.overflow = o
         y.resize(sd, nd, fd); return y
+    if route in ('resize_if', 'resize_wi'):
+        # the destination sizes spelled through n_int (with the destination's signedness given in the same call)
+        y = copy.deepcopy(src); y.config.rounding = r; y.config.overflow = o
+        ni = nd - fd - (1 if sd else 0)
+        if route == 'resize_if':
+            y.resize(signed=sd, n_int=ni, n_frac=fd)
+        else:
+            y.resize(signed=sd, n_word=nd, n_int=ni)
+        return y
     if route == 'resize_dtype':
         y = copy.deepcopy(src); y.config.rounding = r; y.config.overflow = o
         y.resize(dtype=dtype_str(sd, nd, fd)); return y
